@@ -1297,7 +1297,10 @@ def judge_hhistory(hst, o):
             leaky = True           # the leak shows when the iterator goes away: later steps
         want_exc = s["exc"] or None
         if ob["exc"] != want_exc:
-            bad.append(("%s: exception %s, expected %s" % (tag, ob["exc"], want_exc), base_cls))
+            cls = list(base_cls)
+            if s["op"] == "SetItem" and hp[s["a"] - 1]["kind"] == "mmap" and wr[hp[s["a"] - 1]["on"] - 1]["const"]:
+                cls.append("C02-mapping-setitem-const-owner")      # the assignment itself, not only the probe
+            bad.append(("%s: exception %s, expected %s" % (tag, ob["exc"], want_exc), cls))
         if s["op"] == "IterNext" and not s["exc"]:
             it = hp[s["a"] - 1]
             if it["kind"] == "mapiter":
